@@ -102,7 +102,9 @@ func checkWatcherIteration(c *report.Ctx) {
 			okG = false
 		}
 	}
-	c.Check("R-GUARD", name+"/classification", "an exit is a fault only while not shutting down, and it is the runtime's exactly when the name equals this generation's runtime name", okN && okG && len(stores) == 2, fpos(f), 3, "compares with Sprintf(\"%%s-%%d\", runtime, generation): %v; faults recorded only when not shutting down: %v", okN, okG)
+	// two recordings: one per arm, or one call handed the fault type chosen by the comparison (read per edge of the join)
+	nrec := recordingCount(f, facts, "L/appctx.StoreFirstFatalError", 1)
+	c.Check("R-GUARD", name+"/classification", "an exit is a fault only while not shutting down, and it is the runtime's exactly when the name equals this generation's runtime name", okN && okG && nrec == 2, fpos(f), 3, "compares with Sprintf(\"%%s-%%d\", runtime, generation): %v; faults recorded only when not shutting down: %v", okN, okG)
 }
 
 func checkFirstFaultPrecedence(c *report.Ctx) {
